@@ -110,7 +110,9 @@ func (t *treeSimple) output(w io.Writer, r io.Reader, cfg *config) error {
 }
 
 func (t *treeSimple) outputProgrammably(w io.Writer, root *Node, cfg *config) error {
-	if cfg.encode != encodeDefault {
+	// the dry-run report (names validated, directories and files counted) comes from the spreader,
+	// as it does for OutputFromMarkdown and with the massive option
+	if cfg.encode != encodeDefault || cfg.dryrun {
 		if err := t.outputGrower(cfg).grow([]*Node{root}); err != nil {
 			return err
 		}
